@@ -106,4 +106,8 @@ def specKind : PK → Rules.Kind
 /-- bitboard of a list of squares -/
 def bbOfSquares (l : List Nat) : Nat := l.foldl (fun acc s => acc ||| (1 <<< s)) 0
 
+/-- keep at most a handful of reports of each (class, props, kind): a flood of one kind must not crowd out another -/
+def keepReport (reports : Array String) (tag : String) : Bool :=
+  reports.size < 600 && (reports.foldl (fun a r => if (r.splitOn tag).length > 1 then a + 1 else a) 0) < 6
+
 end RCE.Codec
